@@ -145,18 +145,32 @@ func (c *histConf) updater(returnInput bool, failAt int) (*merge.Updater, *conv)
 		}
 	} else if c.ignPats != nil {
 		b.IgnoreFilter = map[fieldpath.APIVersion]fieldpath.Filter{}
-		for v, pats := range c.ignPats {
+		// one matcher value per distinct pattern, shared by the filters of all versions
+		// (visited in sorted order so that runs are reproducible)
+		shared := map[string]*fieldpath.SetMatcher{}
+		vers := make([]string, 0, len(c.ignPats))
+		for v := range c.ignPats {
+			vers = append(vers, v)
+		}
+		sortStrings(vers)
+		for _, v := range vers {
 			var ms []*fieldpath.SetMatcher
-			for _, p := range pats {
-				parts := make([]interface{}, len(p))
-				for i, x := range p {
-					if x == "*" {
-						parts[i] = fieldpath.MatchAnyPathElement()
-					} else {
-						parts[i] = x
+			for _, p := range c.ignPats[v] {
+				key := strings.Join(p, "\x00")
+				m, ok := shared[key]
+				if !ok {
+					parts := make([]interface{}, len(p))
+					for i, x := range p {
+						if x == "*" {
+							parts[i] = fieldpath.MatchAnyPathElement()
+						} else {
+							parts[i] = x
+						}
 					}
+					m = fieldpath.MakePrefixMatcherOrDie(parts...)
+					shared[key] = m
 				}
-				ms = append(ms, fieldpath.MakePrefixMatcherOrDie(parts...))
+				ms = append(ms, m)
 			}
 			b.IgnoreFilter[fieldpath.APIVersion(v)] = fieldpath.NewIncludeMatcherFilter(ms...)
 		}
